@@ -6,8 +6,8 @@
    Model/Literal.v (PRQL literal spellings -> values -> SQL text).
    Tables: Gen/GenLiteral.v, regenerated from /repo on every run (vplib/props/c08_gen.py). *)
 From Coq Require Import List NArith ZArith Bool.
-From PV Require Import Lib.ListX Model.Escape Model.SqlLex Model.Literal
-                       Proofs.EscapeProofs Proofs.LiteralProofs Gen.GenLiteral.
+From PV Require Import Lib.ListX Model.Escape Model.SqlLex Model.SqlLexBq Model.Literal
+                       Proofs.EscapeProofs Proofs.SqlLexBqProofs Proofs.LiteralProofs Gen.GenLiteral.
 Import ListNotations.
 Local Open Scope N_scope.
 
@@ -105,23 +105,49 @@ Theorem c08_bigquery_configuration : writer_of wt s_bigquery = Some false /\ rea
 Proof. vm_compute. split; reflexivity. Qed.
 Print Assumptions c08_bigquery_configuration.
 
+(* BigQuery's reading side modelled exactly (Model/SqlLexBq.v): backslash escapes, '' = the empty string, three quotes open
+   a triple-quoted string; flag dq = true: sqlparser's BigQuery tokenizer (the executable oracle: a doubled quote inside
+   '...' is one quote), dq = false: BigQuery's documented syntax (a doubled quote is not an escape). *)
 Theorem string_roundtrip_bigquery_refuted :
-  exists s, sql_lex bs_sql (emit_literal_string false s) <> [TString s].
-Proof. exists [97; 92; 110; 98]. vm_compute. discriminate. Qed.
+  exists s, bq_lex true (emit_literal_string false s) <> [TString s] /\ bq_lex false (emit_literal_string false s) <> [TString s].
+Proof. exists [97; 92; 110; 98]. split; vm_compute; discriminate. Qed.
 Print Assumptions string_roundtrip_bigquery_refuted.
 
 Theorem string_unterminated_bigquery_refuted :
-  exists s, sql_lex bs_sql (emit_literal_string false s) = [TUnterminated].
-Proof. exists [97; 92]. vm_compute. reflexivity. Qed.
+  exists s, bq_lex true (emit_literal_string false s) = [TUnterminated] /\ bq_lex false (emit_literal_string false s) = [TUnterminated].
+Proof. exists [97; 92]. split; vm_compute; reflexivity. Qed.
 Print Assumptions string_unterminated_bigquery_refuted.
 
-(* PARTIAL for BigQuery: strings with neither backslash nor quote (a literal that starts with three quotes is a
-   triple-quoted string there, and a doubled quote is not an escape: neither is modelled by Model/SqlLex.v, so the hypothesis
-   excludes quotes altogether; the finding's class is its complement) *)
-Theorem string_roundtrip_bigquery_partial : forall s, plain_chars s = true ->
-  sql_lex bs_sql (emit_literal_string false s) = [TString s].
-Proof. exact (fun s H => literal_string_roundtrip_gen false bs_sql s (plain_compatible false bs_sql s H)). Qed.
+(* the literal ends early and its tail becomes SQL:  \' OR 1=1 --  is read as the string ' followed by OR 1 = 1 *)
+Theorem string_injection_bigquery_refuted :
+  exists s, bq_lex true (emit_literal_string false s) = [TString [39]; TWord [79; 82]; TNumber [49]; TPunct 61; TNumber [49]].
+Proof. exists [92; 39; 32; 79; 82; 32; 49; 61; 49; 32; 45; 45]. vm_compute. reflexivity. Qed.
+Print Assumptions string_injection_bigquery_refuted.
+
+(* no backslash needed: a value that starts with a quote opens a triple-quoted string ... *)
+Theorem string_triple_quote_bigquery_refuted :
+  exists s, no_backslash s = true /\ bq_lex true (emit_literal_string false s) = [TUnterminated].
+Proof. exists [39; 120]. split; vm_compute; reflexivity. Qed.
+Print Assumptions string_triple_quote_bigquery_refuted.
+
+(* ... and under the documented syntax any quote splits the literal in two:  it's  is read as 'it' 's' *)
+Theorem string_split_bigquery_refuted :
+  exists s, no_backslash s = true /\ bq_lex false (emit_literal_string false s) = [TString [105; 116]; TString [115]].
+Proof. exists [105; 116; 39; 115]. split; vm_compute; reflexivity. Qed.
+Print Assumptions string_split_bigquery_refuted.
+
+(* PARTIAL for BigQuery, as far as it is true: no backslash, the value does not start with a quote, and -- under the
+   documented syntax only -- no quote at all (bq_fits).  In every context.  The finding's class is the complement. *)
+Theorem string_roundtrip_bigquery_partial : forall dq s, bq_fits dq s = true ->
+  bq_lex dq (emit_literal_string false s) = [TString s].
+Proof. exact bq_literal_roundtrip. Qed.
 Print Assumptions string_roundtrip_bigquery_partial.
+
+Theorem literal_no_structure_change_bigquery_partial : forall dq s pre suf,
+  bq_fits dq s = true -> bq_closed_prefix dq pre = true -> starts_with 39 suf = false ->
+  bq_lex dq (pre ++ emit_literal_string false s ++ suf) = bq_lex dq pre ++ TString s :: bq_lex dq suf.
+Proof. exact bq_literal_in_context. Qed.
+Print Assumptions literal_no_structure_change_bigquery_partial.
 
 (* PARTIAL for the two model families, any writer flag against any reader: the flags agree, or the string has no backslash *)
 Theorem string_roundtrip_partial : forall w d s,
@@ -277,6 +303,11 @@ Example c08_ex_timestamp : date_token [64;50;48;50;48;45;48;49;45;48;50;84;49;48
     Some (LTimestamp [50;48;50;48;45;48;49;45;48;50;84;49;48;58;51;48;43;48;53;51;48], [])                  (* @2020-01-02T10:30+05:30 *)
   /\ tz_colon [50;48;50;48;45;48;49;45;48;50;84;49;48;58;51;48;43;48;53;51;48] = [50;48;50;48;45;48;49;45;48;50;84;49;48;58;51;48;43;48;53;58;51;48].
 Proof. vm_compute. split; reflexivity. Qed.
+Example c08_ex_bq_fits : bq_fits true [105; 116; 39; 115; 39] = true /\ bq_fits false [105; 116; 39; 115] = false /\ bq_fits false [105; 116] = true
+                         /\ bq_closed_prefix true [83;69;76;69;67;84;32] = true.
+Proof. vm_compute. repeat split; reflexivity. Qed.
+Example c08_ex_bq_triple : bq_lex true [39;39;39;97;39;39;98;39;39;39;32;39;39] = [TString [97;39;39;98]; TString []].      (* '''a''b''' '' *)
+Proof. vm_compute. reflexivity. Qed.
 Example c08_ex_context : closed_prefix std_sql [83;69;76;69;67;84;32] = true.                       (* "SELECT " *)
 Proof. vm_compute. reflexivity. Qed.
 Example c08_ex_hex : based_numbers rows [48;120;49;102] = Some (31, []).                              (* 0x1f *)
